@@ -349,17 +349,22 @@ def run(prop, tier, replay=None):
     tpath = ff.write_tables(work, tables)
 
     # 2./3. the real code: TLC's cases, and seeded cases from the wide concrete domain (independent `go test` runs, in parallel)
-    tasks = []       # (label, callable returning (lines, wall))
+    tasks = []       # (label, target, callable returning (lines, wall))
+    nsub = [0]
+
+    def subdir():
+        nsub[0] += 1
+        d = os.path.join(work, "run%d" % nsub[0])
+        os.makedirs(d)
+        return d
 
     def add_vectors(target, vs, tag):
         if vs:
-            sub = os.path.join(work, "run%d" % len(tasks))
-            os.makedirs(sub)
+            sub = subdir()
             tasks.append(("vectors/" + target, target, lambda: ff.run_vectors(sub, target, vs, tpath, tag)))
 
     def add_gen(target, gens, n, tag, env=None):
-        sub = os.path.join(work, "run%d" % len(tasks))
-        os.makedirs(sub)
+        sub = subdir()
         tasks.append(("gen/%s/%s" % (target, "+".join(gens)), target, lambda: ff.run_generators(sub, target, gens, n, tpath, tag, env)))
 
     def run_tasks():
